@@ -19,6 +19,7 @@ FaultTable == [
     rule_not_mapping    |-> <<"LoadRule", {"text", "bin"}>>,
     config_wrong_type   |-> <<"LoadConfig", {"text", "bin"}>>,
     flag_wrong_type     |-> <<"LoadConfig", {"text", "bin"}>>,
+    range_wrong_type    |-> <<"LoadConfig", {"text", "bin"}>>,
     sections_wrong_type |-> <<"LoadConfig", {"text", "bin"}>>,
     macros_wrong_type   |-> <<"MacroExpand", {"text", "bin"}>>,
     macro_file_missing  |-> <<"MacroExpand", {"text", "bin"}>>,
